@@ -383,6 +383,15 @@ class SymInt:
     __rfloordiv__ = _int_bin("floordiv", True)
     __mod__ = _int_bin("mod")
     __rmod__ = _int_bin("mod", True)
+
+    def __divmod__(self, o):
+        q = self.__floordiv__(o)
+        return NotImplemented if q is NotImplemented else (q, self.__mod__(o))
+
+    def __rdivmod__(self, o):
+        q = self.__rfloordiv__(o)
+        return NotImplemented if q is NotImplemented else (q, self.__rmod__(o))
+
     __truediv__ = _int_bin("truediv")
     __rtruediv__ = _int_bin("truediv", True)
     __lt__ = _int_cmp("lt")
